@@ -52,6 +52,41 @@ def transitions(c, p):
                 lines += [sq_line(rng, kind, k), sq_line(rng, kind, n), sq_line(rng, kind, rng.choice([1, rout])), 'sp.free kind=%s obj=1' % kind]
                 p.case(lines, cost=0.5 + (k + n) / 40.0); c.distinct([(kind, 'sq', k, n)])
 
+def long_midblock(c, p):
+    """a chunk of 249 bytes or more that starts inside a block and ends d bytes into a block 256 (or 512) bytes
+    later: block positions kept in narrow integers wrap exactly there."""
+    rng = c.rng; th = c.tier == 'thorough'
+    for kind, (rin, rout) in SP.items():
+        combos = [(k, span - k + d) for span in (256, 512) for k in range(1, min(rin, 8)) for d in range(0, min(rin, 8))]
+        if rin == 32: combos += [(k, 256 - k + d) for k in (9, 17, 31) for d in (0, 8, 31)]
+        if not th: combos = rng.sample([x for x in combos if x[1] < 300], 3) + rng.sample([x for x in combos if x[1] > 300], 1)
+        for k, n in combos:
+            if can_absorb(kind):
+                lines = [init_line(rng, kind), 'sp.absorb kind=%s obj=1 in=%s' % (kind, hx(pattern(rng, k))),
+                         'sp.absorb kind=%s obj=1 in=%s align=%d' % (kind, hx(pattern(rng, n)), rng.randrange(8)),
+                         'sp.absorb kind=%s obj=1 in=%s' % (kind, hx(pattern(rng, rng.choice([1, 3]))))]
+                if kind in ('hmac', 'hmaca'): lines.append('sp.hmacfinal kind=%s obj=1 key=%s' % (kind, hx(pattern(rng, 16))))
+                else: lines.append(sq_line(rng, kind, rout + 3))
+                lines.append('sp.free kind=%s obj=1' % kind)
+                p.case(lines, cost=0.6 + (k + n) / 40.0); c.distinct([(kind, 'abs', k, n)])
+            if can_squeeze(kind) and kind not in ('hash', 'hasha'):
+                k2 = k % rout or 1; n2 = n + (k - k2)
+                lines = [init_line(rng, kind)]
+                if can_absorb(kind): lines.append('sp.absorb kind=%s obj=1 in=%s' % (kind, hx(pattern(rng, 5))))
+                lines += [sq_line(rng, kind, k2), sq_line(rng, kind, n2), sq_line(rng, kind, rout + 1), 'sp.free kind=%s obj=1' % kind]
+                p.case(lines, cost=0.6 + (k + n) / 40.0); c.distinct([(kind, 'sq', k2, n2)])
+    # the same for the incremental AEAD sessions
+    for sc, klen, rate in (('aead128', 16, 8), ('aead128a', 16, 16), ('aead80pq', 20, 8)):
+        for span in ((256, 512) if th else (256,)):
+            k = rng.randrange(1, rate); d = rng.randrange(0, rate); n = span - k + d
+            lines = ['inc.init scheme=%s obj=1 k=%s n=%s' % (sc, hx(pattern(rng, klen)), hx(pattern(rng, 16))),
+                     'inc.start scheme=%s obj=1 ad=%s' % (sc, hx(pattern(rng, 5))),
+                     'inc.enc scheme=%s obj=1 in=%s inplace=0 save=ct null_if_empty=0' % (sc, hx(pattern(rng, k))),
+                     'inc.enc scheme=%s obj=1 in=%s inplace=%d save=ct+ null_if_empty=0' % (sc, hx(pattern(rng, n)), rng.randrange(2)),
+                     'inc.enc scheme=%s obj=1 in=%s inplace=0 save=ct+ null_if_empty=0' % (sc, hx(pattern(rng, 3))),
+                     'inc.encfin scheme=%s obj=1 save=tag' % sc, 'inc.free scheme=%s obj=1' % sc]
+            p.case(lines, cost=1.0 + (k + n) / 20.0); c.distinct([('session-long', sc, k, n)])
+
 def walks(c, p, count):
     """random call sequences mixing chunked absorb/squeeze, copies at any point, pad, duplex re-absorb, re-init"""
     rng = c.rng
@@ -127,6 +162,7 @@ def run(c):
     sessions(c, p, 600 if th else 45)
     hkdf_cases(c, p)
     twins(c, p)
+    long_midblock(c, p)
     inplace_inside_block(c, p)
     c.assumptions += ['the partition space is exhausted on the symbolic models (all chunk lengths 0..bound, bound = 2 blocks + 5; copy/duplex 1 block + 5); the real library is driven through every (count, call length) transition class and seeded random histories',
                       'byte VALUES are sampled']
@@ -194,3 +230,12 @@ def hkdf_cases(c, p):
                 lines.append('hkdf.expand kind=%s obj=1 info=%s n=%d' % (kind, info, n))
             lines.append('hkdf.free kind=%s obj=1' % kind)
             p.case(lines, cost=3.0 + total / 16.0); c.distinct([(kind, 'expand', i)])
+        # the last permitted block (255), reached through the documented public fields, handed out in pieces
+        for i in range(12 if th else 4):
+            a = rng.randrange(1, 32); b = rng.randrange(1, 33 - a)
+            reqs = [a, b] + ([32 - a - b] if a + b < 32 and rng.random() < 0.7 else []) + [rng.choice([0, 1, 5])]
+            lines = ['hkdf.extract kind=%s obj=1 key=%s salt=%s' % (kind, hx(pattern(rng, 16)), hx(pattern(rng, 9))),
+                     'hkdf.expand kind=%s obj=1 info=%s n=32' % (kind, hx(b'lim')), 'hkdf.poke kind=%s obj=1 counter=255' % kind]
+            for r in reqs: lines.append('hkdf.expand kind=%s obj=1 info=%s n=%d' % (kind, hx(b'lim'), r))
+            lines.append('hkdf.free kind=%s obj=1' % kind)
+            p.case(lines, cost=5.0); c.distinct([(kind, 'lastblock', tuple(reqs))])
